@@ -4,6 +4,10 @@ CONSTANTS
   PoolOrder <- MC_Pool12
   MaxLen = 3
   MaxNames = 12
+  Mode = "grid"
+  MaxOps = 30
+  MaxMut = 0
+  MaxObs = 0
   MaxRagged = 3
   MaxRaggedInt = 3
   MaxExtends = 1
